@@ -388,6 +388,45 @@ def search(ctx):
         for _k in range(5):
             t = ts * rng.uniform(0.5, 1.6); pt = ref.bern(cps[0], t)
             one(pfam, cps, geo, path, 'overshoot-level', (rng.choice([x0 - 30.0, x1 + 30.0, rng.uniform(x0 + 50, x1 - 50)]), pt[1]))
+    # near-horizontal edges (|slope| between 1e-4 and 1e-3): the level of the query lies inside the edge's tiny y-span
+    for _ in range(ctx.n(15, 300)):
+        W = float(rng.randint(800, 3000)); rise = rng.choice([0.3, 0.5, 1.0, 2.0]); H = float(rng.randint(200, 800))
+        x0, y0 = float(rng.randint(-500, 500)), float(rng.randint(-500, 500))
+        cps = [[(x0, y0), (x0 + W, y0 + rise)], [(x0 + W, y0 + rise), (x0 + W * 0.9, y0 + H)], [(x0 + W * 0.9, y0 + H), (x0 + W * 0.1, y0 + H * 0.8)], [(x0 + W * 0.1, y0 + H * 0.8), (x0, y0)]]
+        if rng.random() < 0.5: cps = [[(x, 2 * y0 - y) for x, y in cp] for cp in cps]
+        geo = Geo(cps); path = make_path(cps)
+        for _k in range(5):
+            fr = rng.uniform(0.15, 0.85)
+            yq = cps[0][0][1] + (cps[0][1][1] - cps[0][0][1]) * fr
+            one('near-horizontal-edge', cps, geo, path, 'edge-span-level', (rng.choice([geo.box[0] - 150.0, geo.box[2] + 150.0, x0 + W * rng.uniform(0.2, 0.8)]), yq))
+    # degree-elevated quadratics (quadraticsToCubics) on a small shape far from the origin: the vanishing cubic coefficient is rounding noise that scales with the offset
+    for _ in range(ctx.n(15, 300)):
+        off = (rng.choice([1e4, 1e5, 1e6]) * rng.choice([1, -1]) + rng.uniform(-3, 3), rng.choice([1e4, 1e5, 1e6]) * rng.choice([1, -1]) + rng.uniform(-3, 3))
+        R = rng.uniform(5, 60)
+        qs = [[(R, 0), (R, R), (0, R)], [(0, R), (-R, R), (-R, 0)], [(-R, 0), (-R, -R), (0, -R)], [(0, -R), (R, -R), (R, 0)]]
+        cps = []
+        for q in qs:
+            a, b, c = [(x + off[0], y + off[1]) for x, y in q]
+            cps.append([a, (a[0] / 3 + 2 * b[0] / 3, a[1] / 3 + 2 * b[1] / 3), (2 * b[0] / 3 + c[0] / 3, 2 * b[1] / 3 + c[1] / 3), c])        # as QuadraticBezier.toCubicBezier computes it
+        geo = Geo(cps); path = make_path(cps)
+        for _k in range(5):
+            one('elevated-far', cps, geo, path, 'generic', (off[0] + rng.uniform(-1.3, 1.3) * R, off[1] + rng.uniform(-0.9, 0.9) * R))
+    # grow the outline IN PLACE after a first query (ray extents must not be remembered)
+    for _ in range(ctx.n(15, 300)):
+        pfam, cps = gen_path(rng, 'polygon-int')
+        path = make_path(cps)
+        geo0 = Geo(cps); x0, y0, x1, y1 = geo0.box
+        path.pointIsInside(P((x0 + x1) / 2, (y0 + y1) / 2)); path.windingNumberOfPoint(P(x1 + 50.0, (y0 + y1) / 2))
+        i = rng.randrange(len(cps)); dx = rng.choice([1, -1]) * float(rng.randint(150, 400)); dy = float(rng.randint(-100, 100))
+        segs = path.asSegments(); j = (i + 1) % len(segs)
+        segs[i].points[-1].x += dx; segs[i].points[-1].y += dy; segs[j].points[0].x += dx; segs[j].points[0].y += dy      # the shared node, both Point objects, in place
+        cps2 = [[(p.x, p.y) for p in s.points] for s in segs]
+        geo = Geo(cps2)
+        nx, ny = cps2[j][0]
+        cx, cy = sum(p[0][0] for p in cps2) / len(cps2), sum(p[0][1] for p in cps2) / len(cps2)
+        for fr in (0.1, 0.25, 0.4):
+            one('grown-in-place', cps2, geo, path, 'near-moved-node', (nx + (cx - nx) * fr + 0.37, ny + (cy - ny) * fr + 0.21))
+        one('grown-in-place', cps2, geo, path, 'outside-x', (geo.box[2] + 37.0, (geo.box[1] + geo.box[3]) / 2 + 0.13))
     # rays through the crossing of two straight edges
     for _ in range(ctx.n(12, 200)):
         pfam, cps, (cx, cy) = gen_bowtie(rng)
@@ -409,6 +448,16 @@ def search(ctx):
         x0, y0, x1, y1 = geo.box
         for _ in range(4):
             one(pfam, cps, geo, path, 'generic', (rng.uniform(x0 - (x1 - x0), x1 + (x1 - x0)), rng.uniform(y0, y1)))
+    # path-level stale state: asking must not change later answers, and an in-place edit of a segment through the path's own
+    # segment list (or of its Point objects) must be seen by the next query
+    import gen as _gq
+    from beziers.point import Point as _PQ
+    for _ in range(ctx.n(25, 500)):
+        _segs = _gq.closed_contour(rng, ints=rng.random() < 0.3)
+        _qp = _PQ(_segs[0][0].x + rng.uniform(-150, 150), _segs[0][0].y + rng.uniform(-150, 150))
+        _ff = _gq.path_freshness(rng, _segs, {'windingNumberOfPoint': lambda p: p.windingNumberOfPoint(_qp), 'pointIsInside': lambda p: p.pointIsInside(_qp)}, closed=True, disturb=[lambda p: p.pointIsInside(_qp), lambda p: p.bounds(), lambda p: p.length, lambda p: p.area])
+        evals += 1; dist['stale-state/path'] = dist.get('stale-state/path', 0) + 1
+        if _ff: fails.append({'class': 'C11-stale-state', 'what': _ff[0], 'input': None, 'observed': _ff[:3], 'expected': 'the answers of a freshly built path with the same control points'})
     return {'evaluations': evals, 'distinct_nontrivial': len(seen), 'failures': fails, 'distribution': dist, 'samples': samples,
             'measured': {'failures_by_class': byclass, 'failures_by_class_and_family': byfam}}
 
